@@ -59,6 +59,7 @@ impl std::future::Future for GateFut {
             std::task::Poll::Ready(self.tok)
         } else {
             *GATE_WAKER[self.gate].lock().unwrap() = Some(cx.waker().clone());
+            if REWAKE[self.gate].load(SeqCst) { *GATE_KEPT[self.gate].lock().unwrap() = Some(cx.waker().clone()); }
             std::task::Poll::Pending
         }
     }
@@ -82,6 +83,9 @@ fn task_wait(k: usize) { vsched::harness_event("__task_wait", |_| WOKEN[k].load(
 static YIELDED: [AtomicBool; N] = [const { AtomicBool::new(false) }; N];
 static GATE_AT: [AtomicUsize; N] = [const { AtomicUsize::new(usize::MAX) }; N];
 static GATE_WOKE: [AtomicBool; N] = [const { AtomicBool::new(false) }; N];
+static GATE_KEPT: [std::sync::Mutex<Option<std::task::Waker>>; N] = [const { std::sync::Mutex::new(None) }; N];
+static REWAKE: [AtomicBool; N] = [const { AtomicBool::new(false) }; N];
+fn rewake(k: usize) { vsched::harness_event("__gate_rewake", |_| true); let w = GATE_KEPT[k].lock().unwrap().take(); if let Some(w) = w { w.wake(); } }
 fn open_gate_wake(k: usize) { vsched::harness_event("__gate_open", |_| true); GATE[k].store(true, SeqCst); GATE_AT[k].store(now(), SeqCst); let w = GATE_WAKER[k].lock().unwrap().take(); if let Some(w) = w { GATE_WOKE[k].store(true, SeqCst); w.wake(); } }
 static SGOT: [AtomicUsize; N] = [const { AtomicUsize::new(usize::MAX) }; N];
 static SVAL: [AtomicUsize; N] = [const { AtomicUsize::new(usize::MAX) }; N];
@@ -114,6 +118,7 @@ fn op_done(op: usize, v: usize) { RES[op].store(v, SeqCst); RET[op].store(now(),
     sched = ', '.join('("%s".to_string(), "%s".to_string())' % (s['thread'], s['op']) for s in schedule['sites'])
     A('    vsched::configure(%d, vec![%s]);' % (sc.get('pool_max', 0), sched))
     for q in range(nq): A('    let q%d = queue();' % q)
+    for k_ in sorted(set(o[1] for th_ in sc['threads'] for o in th_['ops'] if o[0] == 'rewake')): A('    REWAKE[%d].store(true, SeqCst);' % k_)
     callers = [t['name'] for t in sc['threads'] if not t.get('final')]
     opid = 0
     handles = []
@@ -152,6 +157,7 @@ fn op_done(op: usize, v: usize) { RES[op].store(v, SeqCst); RET[op].store(now(),
                 elif kind == 'desync': body.append('{ %s desync(&q%d, move || { %s }); op_done(%d, 0); }' % (pre, q, ' '.join(code), outer))
                 else: body.append('{ %s let r = try_sync(&q%d, move || { %s %d_usize }); op_done(%d, match r { Ok(v) => v, Err(_) => 9999 }); }' % (pre, q, ' '.join(code), tok, outer))
             elif kind == 'open_gate': body.append('open_gate_wake(%d);' % op[1])
+            elif kind == 'rewake': body.append('rewake(%d);' % op[1])
             elif kind in ('future_desync', 'future_sync'):
                 q = op[1]; b = op[2] if len(op) > 2 else {}
                 fk = b.get('fut', 'ready'); gate = fk[1] if isinstance(fk, (list, tuple)) else {'panic': 9997, 'wake_panic': 9998, 'yield': 9996}.get(fk, 9999)
